@@ -219,7 +219,7 @@ theorem walk_ok (sc : Nat) (peer : Option Nat) : ∀ (l : List (AsE × Nat)) (mt
           exact ⟨_, rfl⟩
         · exact ⟨_, rfl⟩
     rcases hp with ⟨⟨hf, m1⟩, hp⟩
-    rcases ih (min m1 (x.1.mtu % 2 ^ AS_MTU_CAST_BITS)) (fun y hy => h y (List.mem_cons_of_mem _ hy)) with ⟨⟨m, ifs, hops⟩, hr⟩
+    rcases ih (min m1 (min x.1.mtu AS_MTU_SAT)) (fun y hy => h y (List.mem_cons_of_mem _ hy)) with ⟨⟨m, ifs, hops⟩, hr⟩
     unfold walk
     simp only [hp, hr]
     exact ⟨_, rfl⟩
